@@ -40,6 +40,14 @@ def _set_clock(g, clock):
         @classmethod
         def now(cls, tz=None):
             return fixed
+
+        @classmethod
+        def utcnow(cls):
+            return fixed
+
+        @classmethod
+        def today(cls):
+            return fixed
     g.datetime = FakeDT
 
 
@@ -223,6 +231,18 @@ def check_remove_velocity(case):
         if out["blocks"].get(name) != inp["blocks"][name]:
             raise Fail("remove_velocity_sinex: %s block changed" % name, expected=inp["blocks"][name][:4], observed=(out["blocks"].get(name) or [])[:4],
                        bucket="velocity " + name)
+    # header: what is not edited (agency codes, data start / end, constraint code) stays where it was; the count is the number of
+    # remaining parameters in its five-digit field; the solution no longer lists velocities
+    hin, hout = inp["header"], out["header"].rstrip("\n")
+    if hout[:15] != hin[:15] or hout[27:60] != hin[27:60] or hout[65:68] != hin[65:68]:
+        raise Fail("remove_velocity_sinex: header fields other than creation time, parameter count and solution contents changed",
+                   expected=hin, observed=hout, bucket="velocity header fields")
+    if hout[60:65] != "%05d" % len(keep):
+        raise Fail("remove_velocity_sinex: header parameter count does not match the remaining estimates", expected="%05d" % len(keep),
+                   observed=hout[60:65], bucket="velocity header count")
+    if "V" in hout[68:].split() or "S" not in hout[68:].split():
+        raise Fail("remove_velocity_sinex: header solution contents are not the station parameters only", expected="S", observed=hout[68:],
+                   bucket="velocity header contents")
 
 
 def check_remove_zeros(case):
@@ -293,7 +313,7 @@ def check_readers(case):
         raise Fail("read_sinex_sites does not return one entry per site", expected=len(uniq), observed=len(sites), bucket="read sites length")
     for s, t in zip(uniq, sites):
         site, point, domes, obs, desc, lon, lat, h = t
-        ok = (site == s["code"] and point.strip() == s["pt"].strip() and domes == s["domes"] and obs == "P" and desc.strip() == s["desc"].strip())
+        ok = (site == s["code"] and point.strip() == s["pt"].strip() and domes == s["domes"] and obs == s.get("tech", "P") and desc.strip() == s["desc"].strip())
         for ang, w in ((lon, s["lon"]), (lat, s["lat"])):
             ok = ok and (ang.degree, ang.minute, ang.second, ang.positive) == (w[1], w[2], w[3], not w[0])
         ok = ok and h == s["h"]
@@ -338,13 +358,15 @@ def specs(draw, vel=None, max_sets=12):
     stations = []
     for c in codes:
         nsol = draw(st.sampled_from([1, 1, 1, 2, 3]))
+        pt = draw(st.sampled_from(["A", "A", "A", "B", "AB"]))               # point code: two-character field
+        tech = draw(st.sampled_from(["P", "P", "R", "L", "C"]))              # observation technique
         lon = [False, draw(st.integers(0, 359)), draw(st.integers(0, 59)), draw(st.integers(0, 599)) / 10.0]
         lat = [draw(st.booleans()), draw(st.integers(0, 89)), draw(st.integers(0, 59)), draw(st.integers(0, 599)) / 10.0]
         h = draw(st.one_of(st.integers(-999, 88000).map(lambda v: v / 10.0), st.sampled_from([603.2, 0.0, -12.5, 1234.5, 8848.9])))
         for k in range(nsol):
             if len(stations) >= max_sets:
                 break
-            stations.append({"code": c, "pt": "A", "soln": k + 1, "domes": "%05dM%03d" % (draw(st.integers(10000, 99999)), draw(st.integers(1, 9))),
+            stations.append({"code": c, "pt": pt, "tech": tech, "soln": k + 1, "domes": "%05dM%03d" % (draw(st.integers(10000, 99999)), draw(st.integers(1, 9))),
                              "desc": draw(st.sampled_from(["Alice Springs AU", "Victoria/Sidney, Canad", "Mt Stromlo", "X"])),
                              "lon": lon, "lat": lat, "h": h,
                              "xyz": [SX.quantise((draw(_unit) * 2 - 1) * 6.4e6) for _ in range(3)],
@@ -376,7 +398,7 @@ def specs(draw, vel=None, max_sets=12):
     if sel == 3:
         end = end[:7] + "%05d" % max(npar - 3, 0)
     return {"agency": draw(st.sampled_from(["AUS", "IGS", "GA ", "V01"])).strip().ljust(3, "X"), "created": created, "start": start,
-            "end": end, "mean": _stamp(draw), "vel": vel, "tri": draw(st.sampled_from(["L", "U"])), "comment": draw(st.booleans()),
+            "end": end, "mean": _stamp(draw), "vel": vel, "tri": draw(st.sampled_from(["L", "U"])), "comment": draw(st.booleans()), "comment_data": draw(st.booleans()),
             "stations": stations, "cov": cov, "sd": sd}
 
 
